@@ -414,7 +414,11 @@ def canonical(tr: "Translator") -> dict:
             "flexible": getattr(cls, "__flexible__", None), "api_key": getattr(cls, "__api_key__", None),
             "header": None if hdr is None else cref(hdr),
             "params": {"frozen": p.frozen, "eq": p.eq, "order": p.order, "unsafe_hash": p.unsafe_hash,
-                       "slots": "__slots__" in cls.__dict__}, "fields": fields}
+                       "slots": "__slots__" in cls.__dict__}, "fields": fields,
+            # everything else the class body holds: a generated class has nothing but its fields, the class variables
+            # and what @dataclass adds - a hand-added method, property or __post_init__ shows up here
+            "members": sorted(n for n in cls.__dict__ if n not in ("__doc__", "__firstlineno__", "__static_attributes__")),
+            "bases": [f"{b.__module__}.{b.__qualname__}" for b in cls.__bases__]}
     from kio.schema import index as sidx
     from kio.schema.errors import ErrorCode
     import kio.schema.types as stypes
